@@ -126,13 +126,17 @@ func init() {
 			}
 			return math.Sqrt(args[0].(float64))
 		},
-		"fmt.Sprintf": extSprintf,
-		"fmt.Sprint":  extSprint,
-		"fmt.Errorf":  extErrorf,
-		"fmt.Println": func(fr *frame, args []value) value { return tuple{0, iface{}} },
-		"fmt.Printf":  func(fr *frame, args []value) value { return tuple{0, iface{}} },
-		"fmt.Print":   func(fr *frame, args []value) value { return tuple{0, iface{}} },
-		"errors.Is":   extErrorsIs,
+		"strings.IndexByte":                extIndexByte,
+		"internal/bytealg.IndexByteString": extIndexByte,
+		"bytes.IndexByte":                  extIndexByte,
+		"internal/bytealg.IndexByte":       extIndexByte,
+		"fmt.Sprintf":                      extSprintf,
+		"fmt.Sprint":                       extSprint,
+		"fmt.Errorf":                       extErrorf,
+		"fmt.Println":                      func(fr *frame, args []value) value { return tuple{0, iface{}} },
+		"fmt.Printf":                       func(fr *frame, args []value) value { return tuple{0, iface{}} },
+		"fmt.Print":                        func(fr *frame, args []value) value { return tuple{0, iface{}} },
+		"errors.Is":                        extErrorsIs,
 
 		"(*strings.Builder).WriteString": extBuilderWriteString,
 		"(*strings.Builder).WriteByte":   extBuilderWriteByte,
@@ -674,4 +678,35 @@ func extUUIDNew(fr *frame, args []value) value {
 	a[14] = uint8(fr.i.idCounter >> 8)
 	a[15] = uint8(fr.i.idCounter)
 	return a
+}
+
+// extIndexByte: first position of byte c in a string / byte slice whose bytes may be symbolic (forks per position).
+func extIndexByte(fr *frame, args []value) value {
+	var bs []value
+	switch s := args[0].(type) {
+	case string:
+		if c, ok := args[1].(uint8); ok {
+			return strings.IndexByte(s, c)
+		}
+		bs, _ = toBytes(s)
+	case symString:
+		bs = s.bytes
+	case []value:
+		bs = s
+	default:
+		panic(unsupported(fmt.Sprintf("IndexByte on %T", s)))
+	}
+	for i, b := range bs {
+		switch eq := fr.i.x.byteEq(b, args[1]).(type) {
+		case bool:
+			if eq {
+				return i
+			}
+		case sym:
+			if fr.i.x.decide(eq, "index-byte") {
+				return i
+			}
+		}
+	}
+	return -1
 }
